@@ -59,8 +59,8 @@ def run(chk):
     for n in (2, 3, 4):
         cases.append((n, "TRUNCATED", 1, n))
         cases.append((n, "ORDERED_TRUNCATED", 1, n))
-        for its in ((1, 2) if chk.tier == "thorough" else (1,)):
-            for mo in ((n, n + 1, n + 3) if chk.tier == "thorough" else (n, n + 1)):
+        for its in (1, 2):           # two steps: the order in which the step operators are multiplied matters (non-commuting matrices)
+            for mo in ((n, n + 1, n + 3) if chk.tier == "thorough" else (n, n + 1) if its == 1 else (n,)):
                 cases.append((n, "PERTURBATIVE_EXACT", its, mo))
                 cases.append((n, "PERTURBATIVE_EXPANDED", its, mo))
     for n, mname, its, mo in cases:
@@ -101,7 +101,7 @@ def run(chk):
                    f" (< lam^{n - 1}) in entry {info.get('index')}: a term below the working order is wrong ({inst})",
                    where=sdisp.where, instance=inst, data={"witness": info},
                    detail=f"residual = O(lam^{n - 1})", how="Laurent series over F_p")
-    chk.floor("kernel instances", n_inst, 15 + 18)
+    chk.floor("kernel instances", n_inst, 15 + 24)
     chk.note(instances=n_inst, files=["src/eko/kernels/non_singlet.py", "src/eko/kernels/singlet.py"])
     chk.explanation = ("Residual of the DGLAP equation for each approximate kernel formula has lam-valuation >= n-1 "
                        "(hence kernel = exact kernel * (1 + O(a^n))), for all anomalous dimensions and nf.")
